@@ -169,7 +169,9 @@ func scalarMutants(t *tree, path, what string) []mutant {
 	out = append(out,
 		mutant{Path: path, Op: "sc-zero", Rule: what + " zero", make: func() []byte { return t.set(path, zero32) }},
 		mutant{Path: path, Op: "sc-q", Rule: what + " out of range (q)", make: func() []byte { return t.set(path, qBytes()) }},
-		mutant{Path: path, Op: "sc-all-ff", Rule: what + " out of range", make: func() []byte { return t.set(path, bigBytes(new(big.Int).Sub(new(big.Int).Lsh(big.NewInt(1), 256), big.NewInt(1)), 32)) }},
+		mutant{Path: path, Op: "sc-all-ff", Rule: what + " out of range", make: func() []byte {
+			return t.set(path, bigBytes(new(big.Int).Sub(new(big.Int).Lsh(big.NewInt(1), 256), big.NewInt(1)), 32))
+		}},
 		mutant{Path: path, Op: "sc-plus1", Rule: what + " does not match the public value", make: func() []byte {
 			return t.set(path, bigBytes(new(big.Int).Mod(new(big.Int).Add(cur, big.NewInt(1)), ref.N), 32))
 		}},
